@@ -239,7 +239,10 @@ def call_target(case, env):
     return fn(*args, **kwargs)
 
 
-def install_stubs(targets, own):
+def install_stubs(targets, own, names=None):
+    names = names or {}
+    pyvc_rt._call_excs.clear()
+    pyvc_rt._call_rets.clear()
     """callees that the proof replaced by their contract are replaced natively
     by stubs that return what the solver model chose (in call order)"""
     undo = []
@@ -259,6 +262,7 @@ def install_stubs(targets, own):
                 f = _orig.__func__ if isinstance(_orig, (staticmethod, classmethod)) else _orig
                 return f(*a, **k)
             r = pyvc_rt.next_call(_t)
+            nm = names.get(_t)
             if r[0] == 'raise':
                 e = r[1].__new__(r[1])
                 if len(r) > 2 and r[2] is not None:
@@ -266,7 +270,13 @@ def install_stubs(targets, own):
                         e.errno = r[2]
                     except Exception:
                         pass
+                if nm is not None:
+                    pyvc_rt._call_excs[nm] = (r[1].__name__, r[2] if len(r) > 2 else None)
+                    pyvc_rt._call_rets.pop(nm, None)
                 raise e
+            if nm is not None:
+                pyvc_rt._call_excs[nm] = None
+                pyvc_rt._call_rets[nm] = r[1]
             return r[1]
         try:
             stub.__signature__ = inspect.signature(
@@ -297,7 +307,7 @@ def run_case(case, ns):
         except Exception as e:
             obs['witness'].append('error: %r' % (e,))
     sys.setrecursionlimit(case.get('recursionlimit', 1000))
-    undo = install_stubs(case.get('stubs', []), case['target'])
+    undo = install_stubs(case.get('stubs', []), case['target'], case.get('stub_names'))
     # select.select on a model socket: answered from the script (the symbolic side records a nondet bool)
     import select as _select_mod
     _real_select = _select_mod.select
